@@ -178,6 +178,36 @@ inline void Sweep::unified_neighbours()
          ++k;
       }
    }
+   // a constructor applied to its own result: the result of the outer request has the INNER RESULT as its operand (only
+   // qualification is documented to merge); and function declarations whose types differ only in the transfer, entered in both orders
+   {
+      auto xs = P.distinct(P.exprs, 1); auto ts = P.distinct(plain, 2);
+      auto& xc = lex.get_transfer(lex.get_linkage(u8"C"), lex.get_calling_convention(u8""));
+      auto& xs2 = lex.get_transfer(lex.get_linkage(u8"C++"), lex.get_calling_convention(u8"stdcall"));
+      for (auto xf : { &xc, &xs2 }) {
+         auto* inner = &lex.get_as_type(*xs[0], *xf);
+         auto* same = &lex.get_as_type(*inner, *xf);
+         auto* other = &lex.get_as_type(*inner, xf == &xc ? xs2 : xc);
+         auto* plain_outer = &lex.get_as_type(*inner);
+         add_node("get_as_type(as-type with the same transfer, xfer)", same, Category_code::As_type, [same, inner, xf](Ck& c) { c.same("expr", &same->expr(), static_cast<const Expr*>(inner)); c.yes("transfer", same->transfer() == *xf, "as-type does not report its transfer"); c.yes("identity", static_cast<const Node*>(same) != static_cast<const Node*>(inner), "an as-type over an as-type is the inner node itself", A_IDENTITY); }, false);
+         add_node("get_as_type(as-type with another transfer, xfer)", other, Category_code::As_type, [other, inner](Ck& c) { c.same("expr", &other->expr(), static_cast<const Expr*>(inner)); }, false);
+         add_node("get_as_type(as-type with a transfer)", plain_outer, Category_code::As_type, [plain_outer, inner](Ck& c) { c.same("expr", &plain_outer->expr(), static_cast<const Expr*>(inner)); }, false);
+      }
+      {  auto* p1 = &lex.get_pointer(*ts[0]); auto* p2 = &lex.get_pointer(*p1); auto* r1 = &lex.get_reference(*p2); auto* d1 = &lex.get_decltype(*p2);
+         add_node("get_pointer(pointer)", p2, Category_code::Pointer, [p2, p1](Ck& c) { c.same("points_to", &p2->points_to(), static_cast<const Type*>(p1)); }, false);
+         add_node("get_reference(pointer to pointer)", r1, Category_code::Reference, [r1, p2](Ck& c) { c.same("refers_to", &r1->refers_to(), static_cast<const Type*>(p2)); }, false);
+         add_node("get_decltype(type)", d1, Category_code::Decltype, [d1, p2](Ck& c) { c.same("expr", &d1->expr(), static_cast<const Expr*>(p2)); }); }
+      // function declarations under one name: the one with a foreign linkage first, the plain one after it, and the reverse under another name
+      impl::Warehouse<Type> w; w.push_back(*ts[0]); auto& src = lex.get_product(w);
+      const Function* with_c = &lex.get_function(src, *ts[1], xc); const Function* plain_f = &lex.get_function(src, *ts[1]); const Function* with_std = &lex.get_function(src, *ts[1], xs2);
+      auto* holder = lex.make_namespace(*unit.global_region());
+      int k = 0;
+      for (auto order : { std::vector<const Function*> { with_c, plain_f, with_std, plain_f }, std::vector<const Function*> { plain_f, with_std, with_c }, std::vector<const Function*> { with_std, with_c, plain_f } }) {
+         auto& nm = lex.get_identifier(widen("linkage_overloaded_" + std::to_string(k)));
+         for (auto ft : order) { auto* d = holder->body.scope.make_fundecl(nm, *ft); add_node("Scope::make_fundecl(transfer burst " + std::to_string(k) + ")", d, Category_code::Fundecl, [d, ft, np = &nm](Ck& c) { c.same("name", &d->name(), static_cast<const Name*>(np)); c.type_is(*d, *ft, "given"); }); }
+         ++k;
+      }
+   }
    // spellings that are prefixes of one another, through every spelling-keyed constructor
    {
       const char* sp[] = { "ab", "abc", "a", "ab", "abd", "", "abc" };
